@@ -723,7 +723,12 @@ func (o *baseObject) _defineOwnProperty(name unistring.String, existingValue Val
 	}
 
 	if descr.Value != nil || descr.Writable != FLAG_NOT_SET {
-		existing.accessor = false
+		if existing.accessor {
+			// converted to a data property
+			existing.getterFunc = nil
+			existing.setterFunc = nil
+			existing.accessor = false
+		}
 	}
 
 	if descr.Getter != nil {
